@@ -1,10 +1,14 @@
-import sys,subprocess,re,os
-tmp='/tmp/dbg_tmp_%d'%os.getpid()
-# usage: dbg.py file line  -> prints goal state at the given line (inserting Show.)
-f,line=sys.argv[1],int(sys.argv[2])
-src=open(f).read().splitlines()
-pre=src[:line-1]
-open(tmp+'.v','w').write("\n".join(pre)+"\nShow. \n")
-r=subprocess.run(['coqc','-Q','/verif/coq','NS','/tmp/dbg_tmp_$$.v','-o','/tmp/dbg_tmp.vo'],capture_output=True,text=True)
-out=r.stdout+r.stderr
-print(out[-int(sys.argv[3]) if len(sys.argv)>3 else -3000:])
+import sys, subprocess, os
+# usage: dbg.py file.v LINE [nchars] -> prints the goal state just before LINE (inserting Show.)
+tmp = '/tmp/dbg_tmp_%d' % os.getpid()
+f, line = sys.argv[1], int(sys.argv[2])
+src = open(f).read().splitlines()
+open(tmp + '.v', 'w').write("\n".join(src[:line - 1]) + "\nShow. \n")
+r = subprocess.run(['coqc', '-Q', '/verif/coq', 'NS', tmp + '.v', '-o', tmp + '.vo'], capture_output=True, text=True)
+out = r.stdout + r.stderr
+print(out[-int(sys.argv[3]) if len(sys.argv) > 3 else -3000:])
+for e in ('.v', '.vo', '.glob', '.vok', '.vos'):
+    try:
+        os.remove(tmp + e)
+    except OSError:
+        pass
